@@ -110,7 +110,7 @@ impl<'p> Interp<'p> {
             now: 0,
             samplerate: 48000.0,
             steps: 0,
-            max_steps: 20_000_000,
+            max_steps: 2_000_000,
             flags: BTreeSet::new(),
             touched: 0,
         };
@@ -135,7 +135,7 @@ impl<'p> Interp<'p> {
         if c.is_nan() {
             self.flags.insert("nan_condition");
         }
-        !(c <= 0.0)
+        c > 0.0
     }
 
     fn call_named(&mut self, name: &str, args: Vec<(Option<String>, V)>, path: Vec<u32>) -> Result<V, RefError> {
